@@ -4,7 +4,7 @@ from ..rules import calls_to, calls_where, blocks_of, order_ok
 from ..facts import callee_path
 from . import c17
 
-TEXT = ("Decibels::as_amplitude returns literal 1.0 on == 0.0 and literal 0.0 on <= SILENCE, both before powf; Frame::panned returns self untouched at Panning::CENTER and clamps otherwise; no Sub/SubAssign impl of ClockTime subtracts tick counts with a raw unsigned `-` (saturating_sub instead); ClockTime::partial_cmp yields None across clocks and compares ticks before fraction; every fraction stored by ClockTime Add/Sub arithmetic lies in [0, 1) by a rounding-aware interval evaluation; a mapping clamps before easing. Monotonicity, agreement with 10^(dB/20), round trips and easing shapes are exhaustive-value statements and are not decided. The compound-assignment operators of ClockTime use their operand. Tick counts are subtracted with saturating_sub; every known fraction of a constructed ClockTime lies in [0, 1). Outside the two special cases as_amplitude returns 10^(dB/20) itself. Semitones convert as 2^(semitones/12); compound assignments apply their operand once; clock-speed tweens interpolate in the target's unit. Each ClockSpeed::as_* accessor has one outcome per variant, the plain unit conversion. The fraction a clock handle reads is published at full width (f64 bits). ClockTime + f64 hands a negative amount to the subtraction before anything else. A clock publishes nothing while it advances; ticks and fraction are published together by update_shared; the clock handle writes the speed it was given, as it is. Volumes and pannings are converted per frame from the interpolated parameter value: nothing outside Parameter and the listener info reads previous_value() to blend converted chunk-end values.")
+TEXT = ("Decibels::as_amplitude returns literal 1.0 on == 0.0 and literal 0.0 on <= SILENCE, both before powf; Frame::panned returns self untouched at Panning::CENTER and clamps otherwise; no Sub/SubAssign impl of ClockTime subtracts tick counts with a raw unsigned `-` (saturating_sub instead); ClockTime::partial_cmp yields None across clocks and compares ticks before fraction; every fraction stored by ClockTime Add/Sub arithmetic lies in [0, 1) by a rounding-aware interval evaluation; a mapping clamps before easing. Monotonicity, agreement with 10^(dB/20), round trips and easing shapes are exhaustive-value statements and are not decided. The compound-assignment operators of ClockTime use their operand. Tick counts are subtracted with saturating_sub; every known fraction of a constructed ClockTime lies in [0, 1). Outside the two special cases as_amplitude returns 10^(dB/20) itself. Semitones convert as 2^(semitones/12); compound assignments apply their operand once; clock-speed tweens interpolate in the target's unit. Each ClockSpeed::as_* accessor has one outcome per variant, the plain unit conversion. The fraction a clock handle reads is published at full width (f64 bits). ClockTime + f64 hands a negative amount to the subtraction before anything else. A clock publishes nothing while it advances; ticks and fraction are published together by update_shared; the clock handle writes the speed it was given, as it is. Volumes and pannings are converted per frame from the interpolated parameter value: nothing outside Parameter and the listener info reads previous_value() to blend converted chunk-end values. A clock starts from the speed it was configured with, in its own unit; ClockTime::from_ticks_f64 is the whole and fractional part of max(t, 0).")
 TECHNIQUE = 'MIR path-predicate / table rules + interval abstract interpretation of stored values'
 
 
